@@ -115,5 +115,18 @@ Loop(R, m, n, full, k, r, c) ==
                IF p.found THEN Loop(SwapF(R4, r2, p.r), m, n, full, k, r2, p.c) ELSE [R |-> R4, rank |-> r2]
           ELSE Loop(R4, m, n, full, k, r2, c2)
 
+\* ---- _mzd_top_echelonize_m4ri(A, k, r, c, max_r): completes a row echelon form to the reduced one ------------
+\* per block: Gauss on the (at most kk) rows from r on, tables from the kbar pivot rows, look-up applied to the rows ABOVE
+\* (0 .. min(r, max_r) - 1); an incomplete block skips the column in which no pivot was found
+RECURSIVE TopLoop(_, _, _, _, _, _, _, _)
+TopLoop(R, m, n, k, r, c, maxr, kk0) ==
+  IF c >= n THEN [R |-> R, rank |-> r]
+  ELSE LET kk == IF c + kk0 > n THEN n - c ELSE kk0
+           g == GaussSubFull(R, r, c, Min({m, r + kk}), kk)
+           kbar == g.kbar
+           R2 == IF kbar > 0 THEN ApplyTables(g.R, 0, Min({r, maxr}), r, c, kbar, k) ELSE g.R
+       IN TopLoop(R2, m, n, k, r + kbar, c + kbar + (IF kk # kbar THEN 1 ELSE 0), maxr, kk)
+TopEchelonM4RI(A, k) == LET res == TopLoop(A.r, A.m, A.n, k, 0, 0, A.m, KM * k) IN [A |-> Mat(A.m, A.n, res.R), rank |-> res.rank]
+
 EchelonM4RI(A, full, k) == LET res == Loop(A.r, A.m, A.n, full, k, 0, 0) IN [A |-> Mat(A.m, A.n, res.R), rank |-> res.rank]
 =============================================================================
